@@ -199,6 +199,46 @@ def _b_all_any(which):
     return fn
 
 
+def _b_round(ex, ctx, args, kw):
+    x = ex.znum(ex.unopt(args[0], ctx))
+    n = args[1] if len(args) > 1 else 0
+    if not isinstance(n, int):
+        raise GenError("round with symbolic digits")
+    r = ex.fresh("rounded", z3.RealSort())
+    half = z3.Q(5, 10 ** (n + 1)) if n >= 0 else z3.RealVal(5 * 10 ** (-n - 1))
+    xr = z3.ToReal(x) if z3.is_int(x) else x
+    ctx.assume(r - xr <= half, xr - r <= half)
+    return [(ctx, r)]
+
+
+def _b_minmax(which):
+    def fn(ex, ctx, args, kw):
+        xs = list(args[0]) if len(args) == 1 and isinstance(args[0], (list, tuple)) else list(args)
+        if "key" in kw or not xs:
+            raise GenError(f"{which} with key / empty")
+        xs = [ex.znum(ex.unopt(x, ctx)) for x in xs]
+        r = xs[0]
+        for x in xs[1:]:
+            r = z3.If((x < r) if which == "min" else (x > r), x, r)
+        return [(ctx, r)]
+    return fn
+
+
+def _b_int(ex, ctx, args, kw):
+    x = ex.znum(ex.unopt(args[0], ctx))
+    if z3.is_expr(x) and z3.is_int(x):
+        return [(ctx, x)]
+    if isinstance(x, int):
+        return [(ctx, x)]
+    if z3.is_expr(x) and z3.is_real(x):
+        return [(ctx, z3.If(x >= 0, z3.ToInt(x), -z3.ToInt(-x)))]
+    raise GenError("int()")
+
+
+def _b_bool(ex, ctx, args, kw):
+    return [(ctx, ex.truth(args[0]))]
+
+
 def _b_sympify(ex, ctx, args, kw):
     assumed("sympify", "sympify(x) is the identity on SymPy expressions and maps Python numbers to the equal SymPy number")
     return [(ctx, args[0])]
@@ -210,7 +250,8 @@ PY_BUILTINS = {
     "range": Builtin("range", _b_range), "list": Builtin("list", _b_list), "tuple": Builtin("tuple", _b_tuple),
     "float": Builtin("float", _b_float), "hasattr": Builtin("hasattr", _b_hasattr), "getattr": Builtin("getattr", _b_getattr),
     "type": Builtin("type", _b_type), "all": Builtin("all", _b_all_any("all")), "any": Builtin("any", _b_all_any("any")),
-    "sympify": Builtin("sympify", _b_sympify),
+    "sympify": Builtin("sympify", _b_sympify), "round": Builtin("round", _b_round), "min": Builtin("min", _b_minmax("min")),
+    "max": Builtin("max", _b_minmax("max")), "int": Builtin("int", _b_int), "bool": Builtin("bool", _b_bool),
     "True": True, "False": False, "None": NONE,
 }
 for _e in ("ValueError", "TypeError", "KeyError", "UnitsError", "AssertionError", "Exception", "NotImplementedError", "IndexError"):
